@@ -82,10 +82,12 @@ func (s *socket) RecvMsg() (*protocol.Message, error) {
 	// socket.  Later we can look at moving this to priority queues
 	// based on socket pipes.
 
+	// The deadline is armed once: a queue resize while we wait must not
+	// start it over.
+	timeQ := nilQ
 	for {
 		s.Lock()
-		timeQ := nilQ
-		if s.recvExpire > 0 {
+		if s.recvExpire > 0 && timeQ == nil {
 			timeQ = time.After(s.recvExpire)
 		}
 		recvQ := s.recvQ
